@@ -17,8 +17,12 @@ def run(ctx):
     # Refuted: seeded change C15 (the Clean value is renewed only on every fourth completed operation: ABA on the flag CAS)
     vlib.model_check_many(ctx, [dict(module_rel="set/EllenMC.tla", cfg_rel="set/Ellen_q.cfg", workers=3),
                                 dict(module_rel="set/EllenMC.tla", cfg_rel="set/Ellen_q2c.cfg", workers=2),
-                                dict(module_rel="set/EllenMC.tla", cfg_rel="set/Ellen_bad_cleanperiod.cfg", workers=2, expect_violation="LinOK")] +
-                               ([] if q else [dict(module_rel="set/EllenMC.tla", cfg_rel="set/Ellen_q3.cfg", workers=10, timeout=5000, heap="16g")]), par=3)
+                                dict(module_rel="set/EllenMC.tla", cfg_rel="set/Ellen_bad_cleanperiod.cfg", workers=2, expect_violation="LinOK"),
+                                # SkipList.tla (towers of height 1 or 2: find_position with re-read and help_remove, insert_at_position, try_remove_at); refuted: seeded change C15b
+                                dict(module_rel="set/SkipListMC.tla", cfg_rel="set/SkipList_q.cfg", workers=3),
+                                dict(module_rel="set/SkipListMC.tla", cfg_rel="set/SkipList_bad_keepmark.cfg", workers=2, expect_violation="LinOK")] +
+                               ([] if q else [dict(module_rel="set/EllenMC.tla", cfg_rel="set/Ellen_q3.cfg", workers=10, timeout=5000, heap="16g"),
+                                              dict(module_rel="set/SkipListMC.tla", cfg_rel="set/SkipList_q3.cfg", workers=8, timeout=5000, heap="16g")]), par=5)
     n = 0 if q else 8
     deep = [("dfs", 1200 if q else 300000, 2 if q else 3)]
     ps = SC.PROGRAMS + MINMAX + [SC.gen_program(ctx.rng, SC.VOC_FULL, keys=4, minmax=True) for _ in range(n)]
